@@ -104,6 +104,17 @@ def value_preserving(thorough):
     return {k: sorted(set(v)) for k, v in out.items()}
 
 
+def _translates(m, values):
+    """True when the format accepts an Arabic-Indic spelling of one of its numbers (it translates foreign digits)."""
+    for v in values[:3]:
+        x = ''.join(chr(0x660 + int(c)) if c.isdigit() else c for c in v)
+        if x != v:
+            o = outcome(m.validate, x)
+            if o[0] == 'ok':
+                return True
+    return False
+
+
 def plan(ctx):
     return [(name, ctx['tier']) for name in core.modules() if name not in EXEMPT]
 
@@ -174,7 +185,7 @@ def work(item):
     # checksum, and corpus seeds may not have the right character at the right place)
     from .. import e2
     vp = value_preserving(not quick)
-    values, st = e2.valid_set(name, m, 'quick', nseeds=3 if quick else 8, cap=40 if quick else 300)
+    values, st = e2.valid_set(name, m, 'quick', nseeds=8 if quick else 16, cap=60 if quick else 300)
     tr += st['tried']
     for v in values:
         ln = len(v)
@@ -189,6 +200,22 @@ def work(item):
                 acc += _check(res, name, m, x, (1, 'sub:%s@%s' % (class_of(c), _field(i, ln)), v),
                               same_as=v if unicodedata.decimal(c, None) is not None and str(unicodedata.decimal(c)) == ch else None)
     res['extra']['e2_valid_numbers'] = len(values)
+    # a format that translates foreign digits at all gets every code point with a decimal value (not only one per
+    # behaviour class) at every digit position of two valid numbers
+    if quick and any(v_['clause'] == 'translated-to-another-value' for v_ in res['violations']) or (quick and acc and _translates(m, values)):
+        full = value_preserving(True)
+        for v in values[:2]:
+            ln = len(v)
+            for i, ch in enumerate(v):
+                for c in full.get(ch, ()):
+                    x = v[:i] + c + v[i + 1:]
+                    if x in seen:
+                        continue
+                    seen.add(x)
+                    n += 1
+                    acc += _check(res, name, m, x, (1, 'sub:%s@%s' % (class_of(c), _field(i, ln)), v),
+                                  same_as=v if unicodedata.decimal(c, None) is not None and str(unicodedata.decimal(c)) == ch else None)
+        res['extra'].setdefault('translating_formats', []).append(name)
     # ride on the E1 states too (other classes, short strings)
     states, transitions, _sv = e1.module_states(name, 'quick', nseeds=2)
     for x, dev in states.items():
